@@ -1,6 +1,6 @@
 # engine C build: instrument the working-tree versions of the listed files (go/ast
 # rewriter, regenerated on every run) and substitute them through the overlay.
-THREX_FILES="internal/app/plugins/poll/poll.go internal/api/api.go internal/aio/aio.go internal/kernel/system/system.go internal/app/subsystems/api/api.go internal/app/subsystems/aio/store/store.go internal/app/subsystems/aio/echo/echo.go"
+THREX_FILES="internal/app/plugins/poll/poll.go internal/api/api.go internal/aio/aio.go internal/kernel/system/system.go internal/app/subsystems/api/api.go internal/app/subsystems/aio/store/store.go internal/app/subsystems/aio/echo/echo.go internal/app/subsystems/aio/store/sqlite/sqlite.go"
 threx_build() {
   # extra args: "virtual=real" overlay pairs of a mutant (the rewriter then reads the patched copy)
   local tmpd; mkdir -p $VERIF/.ov $VERIF/bin; tmpd=$(mktemp -d $VERIF/.ov/threx.XXXXXX) || return 1
